@@ -29,6 +29,10 @@ def patterns(ctx, nrows, count, max_timeouts=1):
     out.append(({(ids[0], 0): "timeout"}, {}))
     out.append(({}, {ids[0]: "raise"}))
     out.append(({}, {ids[min(1, nrows - 1)]: "timeout"}))
+    # exceptions without a message (str(e) == ""), and failures inside the merge step of the imputation
+    out.append(({(ids[0], c): "raise-empty" for c in range(3)}, {ids[min(1, nrows - 1)]: "raise-empty"}))
+    out.append(({}, {}, {ids[0]: "raise-empty", ids[min(2, nrows - 1)]: "raise"}))
+    out.append(({}, {ids[0]: "timeout-long"}))
     for _ in range(count):
         s, g, nt = {}, {}, 0
         for rid in rng.sample(ids, rng.randint(1, min(3, nrows))):
@@ -41,20 +45,23 @@ def patterns(ctx, nrows, count, max_timeouts=1):
                 kind = "timeout" if (rng.random() < 0.3 and nt < max_timeouts) else "raise"
                 nt += kind == "timeout"
                 g[rid] = kind
-        out.append((s, g))
+        m = {}
+        if rng.random() < 0.4:
+            m[rng.choice(ids)] = rng.choice(["raise", "raise-empty"])
+        out.append((s, g, m))
     return out
 
 
-def run_faulted(inputs, search, graph):
-    with faults.Faults(search, graph) as F:
+def run_faulted(inputs, search, graph, merge=None):
+    with faults.Faults(search, graph, merge=merge) as F:
         tr = pipeline.traced_run(inputs, n_jobs=1)
     tr["fired"] = list(F.fired)
     tr["affected"] = sorted(F.affected())
     return tr
 
 
-def statement(ctx, inputs, base, tr, search, graph):
-    desc = {"search": {"%s/%s" % k: v for k, v in search.items()}, "graph": graph, "inputs": inputs}
+def statement(ctx, inputs, base, tr, search, graph, merge=None):
+    desc = {"search": {"%s/%s" % k: v for k, v in search.items()}, "graph": graph, "merge": merge or {}, "inputs": inputs}
     ctx.case(("c11", json.dumps(desc, sort_keys=True)), nontrivial=bool(tr["fired"]))
     for f in tr["fired"]:
         ctx.count("fault:%s:%s" % (f[0], f[-1]))
@@ -93,12 +100,14 @@ def explore(ctx, nrows, count, compare=True):
     if compare:
         pipeline.compare_trace(ctx, base)
     done = []
-    for search, graph in patterns(ctx, nrows, count):
-        tr = run_faulted(inputs, search, graph)
+    for pat in patterns(ctx, nrows, count):
+        search, graph = pat[0], pat[1]
+        merge = pat[2] if len(pat) > 2 else {}
+        tr = run_faulted(inputs, search, graph, merge)
         if compare:
             pipeline.compare_trace(ctx, tr, layer="Pipeline(faults)")
         done.append((search, graph, tr))
-        if not statement(ctx, inputs, base, tr, search, graph):
+        if not statement(ctx, inputs, base, tr, search, graph, merge):
             break
     return inputs, done
 
@@ -113,7 +122,9 @@ def run(ctx):
         MODULE,
         "a batch of MCS-solved reactions from the shared workload plus a rule-based and a balanced row, run in-process "
         "(n_jobs=1) without faults and under fault patterns: hand-placed (all three search conditions of a row raise; one "
-        "condition sleeps past the 2 s wait and then finishes = zombie thread; the fragment analysis raises / times out) and "
+        "condition sleeps past the 2 s wait and then finishes = zombie thread; the fragment analysis raises / times out; "
+        "exceptions whose message is empty; failures inside the merge step of the imputation; a fragment analysis that keeps "
+        "running for 5 s after it was abandoned, with further rows analysed behind it) and "
         "seeded subsets of (row, condition) search jobs and fragment-analysis jobs; every faulted run is traced and compared "
         "with the Lean row machine under the recorded (faulty) oracle; statement: unaffected rows identical to the fault-free "
         "run, affected rows solved-and-balanced or declined unchanged with a reason, no row lost "
